@@ -106,4 +106,12 @@ PROPS = {
         "exhaustive": "thorough: all 11^5 histories over {hoa/rm/imm x 3 keys, 2 filler adds}, one chunk, capacity 4",
         "assumptions": ["Go maps and container/list are modelled (association lists, lists); chunk routing by fnv32 is modelled exactly; item sizes are >= 0"],
     },
+    "C15": {
+        "theorems": [],
+        "modules": ["SV.Props.C15"],
+        "runs": [{"component": "lru", "thorough_seeds": 2}],
+        "rule": "random Put/HasOrAdd/Get/Peek/Has/Remove/Clear/Register/UnRegister histories over 3-8 keys on lrucache.NewCache (hashicorp LRU) and NewCacheWithSizeInBytes (capacityLRU), capacities 1-6, byte capacities 1..100000, sizes -3..1000; handler invocations collected per call; distinct = distinct (operation kind, canonical output incl. Keys order, Len, bytes, handler multiset) pairs",
+        "exhaustive": "thorough: all 21^4 histories over {put k (sizes 0,2,4,5), hoa k, get k, rm k} x 3 keys on a sized cache cap=2 bytes=4",
+        "assumptions": ["hashicorp/golang-lru v0.6.0 simplelru and container/list are modelled from their source; handlers run on goroutines: the harness waits for quiescence (bounded) before reading the invocation multiset"],
+    },
 }
